@@ -3,6 +3,89 @@ import tempfile
 import traceback
 
 
+def round_trip():
+    """a simulation with roles of different key lengths and sub-roles, an enum, an eternal, a week-defined and an end-dated variable:
+    dumped, restored, compared entity by entity and holder by holder; then the same calculations on both"""
+    import numpy
+    from openfisca_core import entities, periods, taxbenefitsystems, variables
+    from openfisca_core.indexed_enums import Enum
+    from openfisca_core.simulations import SimulationBuilder
+    from openfisca_core.tools import simulation_dumper
+    person = entities.build_entity(key="person", plural="persons", label="", is_person=True)
+    household = entities.build_entity(key="household", plural="households", label="",
+                                      roles=[{"key": "kid", "plural": "kids"}, {"key": "adult", "plural": "adults", "subroles": ["first_adult", "second_adult"]},
+                                             {"key": "dependent", "plural": "dependents"}])
+    tbs = taxbenefitsystems.TaxBenefitSystem([person, household])
+    M, W, Y, ET = periods.DateUnit.MONTH, periods.DateUnit.WEEK, periods.DateUnit.YEAR, periods.DateUnit.ETERNITY
+
+    class Status(Enum):
+        owner = "o"
+        tenant = "t"
+        free = "f"
+
+    def var(name, vt, ent, dp, **kw):
+        return type(name, (variables.Variable,), dict(value_type=vt, entity=ent, definition_period=dp, **kw))
+
+    def nb_dependents(household, period):
+        return household.nb_persons(household.entity.DEPENDENT)
+
+    def pay_total(household, period):
+        return household.sum(household.members("pay", period))
+    vs = [var("salary", float, person, M), var("age", int, person, M), var("birth", int, person, ET), var("pay", float, person, W),
+          var("status", Enum, household, M, possible_values=Status, default_value=Status.tenant), var("rent", float, household, M),
+          var("allowance", float, household, M, end="2016-11-30"), var("flag", bool, person, Y),
+          var("nb_dependents", int, household, M, formula=nb_dependents), var("pay_total", float, household, W, formula=pay_total)]
+    for v in vs:
+        tbs.add_variable(v)
+    sim = SimulationBuilder().build_from_dict(tbs, {
+        "persons": {"z": {"salary": {"2020-01": 10}, "age": {"2020-01": 40}, "birth": {"ETERNITY": 1980}, "pay": {"2020-W01": 700, "2020-W02": 50}, "flag": {"2020": True}},
+                    "a": {"salary": {"2020-01": 20, "2020-02": 21}, "age": {"2020-01": 7}, "birth": {"ETERNITY": 2013}, "pay": {"2020-W01": 20}},
+                    "m": {"salary": {"2020-01": 30}, "age": {"2020-01": 70}, "birth": {"ETERNITY": 1950}},
+                    "k": {"salary": {"2020-01": 40}, "age": {"2020-01": 3}, "birth": {"ETERNITY": 2017}}},
+        "households": {"h2": {"adults": ["m"], "kids": ["k"], "status": {"2020-01": "owner"}, "rent": {"2020-01": 7}},
+                       "h1": {"adults": ["z"], "dependents": ["a"], "status": {"2020-01": "free"}, "rent": {"2020-01": 5}},
+                       "h3": {"adults": [], "rent": {"2020-01": 9}}}})
+    sim.calculate("allowance", "2017-01")         # a value cached for a period after the variable's end date
+    sim.calculate("nb_dependents", "2020-01")
+    bad = []
+    with tempfile.TemporaryDirectory(dir="/var/tmp") as d:
+        simulation_dumper.dump_simulation(sim, d + "/dump")
+        try:
+            sim2 = simulation_dumper.restore_simulation(d + "/dump", tbs)
+        except Exception as e:
+            return [f"restore failed: {type(e).__name__}: {str(e)[:200]}"]
+        for key, pop in sim.populations.items():
+            pop2 = sim2.populations[key]
+            if pop.count != pop2.count or list(pop.ids) != list(pop2.ids):
+                bad.append(f"{key}: count / ids differ: {pop2.count} {list(pop2.ids)} vs {pop.count} {list(pop.ids)}")
+            if key != "person":
+                for attr in ("members_entity_id", "members_position"):
+                    if list(getattr(pop, attr)) != list(getattr(pop2, attr)):
+                        bad.append(f"{key}.{attr} differs: {list(getattr(pop2, attr))} vs {list(getattr(pop, attr))}")
+                if [str(r) for r in pop.members_role] != [str(r) for r in pop2.members_role]:
+                    bad.append(f"{key}.members_role differs: {[str(r) for r in pop2.members_role]} vs {[str(r) for r in pop.members_role]}")
+            for name, holder in pop._holders.items():
+                h2 = pop2._holders.get(name)
+                known = sorted(str(p) for p in holder.get_known_periods())
+                known2 = sorted(str(p) for p in h2.get_known_periods()) if h2 is not None else None
+                if known != known2:
+                    bad.append(f"{name}: periods held {known2} vs {known}")
+                    continue
+                for p in holder.get_known_periods():
+                    a1, a2 = holder.get_array(p), h2.get_array(p)
+                    if a2 is None or type(a1) is not type(a2) or a1.dtype != a2.dtype or a1.tolist() != a2.tolist():
+                        bad.append(f"{name}@{p}: restored {a2!r}, original {a1!r}")
+        for name, p in (("nb_dependents", "2020-01"), ("pay_total", "2020-W01"), ("pay_total", "2020-W02"), ("salary", "2020-02"), ("status", "2020-01"), ("birth", "2020-01")):
+            try:
+                r1, r2 = sim.calculate(name, p).tolist(), sim2.calculate(name, p).tolist()
+            except Exception as e:
+                bad.append(f"{name}@{p}: {type(e).__name__}: {e}")
+                continue
+            if [str(x) for x in r1] != [str(x) for x in r2]:
+                bad.append(f"{name}@{p}: the restored simulation calculates {r2}, the original {r1}")
+    return bad
+
+
 def run(scenario):
     import numpy
     from openfisca_core import entities, periods, taxbenefitsystems, variables
@@ -39,9 +122,11 @@ def run(scenario):
                     bad.append(f"restored {sim2.household.count} households, original has {sim.household.count}")
                 if sim2.get_array("rent", "2020-01").tolist() != sim.get_array("rent", "2020-01").tolist():
                     bad.append("rent differs")
+        elif scenario == "round-trip":
+            bad = round_trip()
         else:
             raise ValueError(scenario)
-        return {"kind": "return", "value": {"ok": not bad, "detail": bad}}
+        return {"kind": "return", "value": {"ok": not bad, "detail": bad[:4]}}
     except BaseException as ex:
         return {"kind": "raise", "exc": type(ex).__name__, "mro": [c.__name__ for c in type(ex).__mro__],
                 "msg": str(ex)[:300], "tb": traceback.format_exc()[-1500:]}
